@@ -131,7 +131,9 @@ struct TokFtor
         simrt::termf(term, sv.data(), int64_t(sv.size()));
         // term functors allocate like user code does (a std::string of the lexeme, a number conversion...): the
         // allocator seam can make exactly this allocation fail, i.e. make the term functor throw
-        delete[] new char[1 + (sv.size() & 7)];
+        char* scratch = new char[1 + (sv.size() & 7)];
+        asm volatile("" : : "r"(scratch) : "memory");     // (a new/delete pair may otherwise be elided)
+        delete[] scratch;
         return Tok{ sv.data(), sv.size() };
     }
 };
